@@ -44,7 +44,8 @@ CFG = {
         "C05_bytes_partial / C05_deterministic_partial: serialize b = Spec.encode (elems b) is proved modulo ONE named kernel hypothesis, Kernel.bitmap_toArray (for a well-formed bitset chunk, to_array_store's listing has len values < 65536 that re-assemble into the stored words); header, descriptors, offsets, array payloads, chunk keys and chunk grouping of elems are proved. The hypothesis belongs to the BitmapStore lemma library (coordinator) and is exercised at run time by the driver's !SPEC cross-check on every `ser`",
         'BitmapWF is a local definition (Lemmas/CodecWF.lean) mirroring bitmapWF of Driver/Core.lean; the producer theorems (every API-built value is WF) belong to C01/C02/C04',
         "C05_offsets (i-th offset = position of chunk i's payload) is implied by C05_bytes + Spec.decode's offset check but not stated separately",
-        'the 64-bit (RoaringTreemap) half is handled by the treemap family',
+        '64-bit half (RoaringTreemap): C05_t_size, C05_t_framing (u64 count, strictly ascending u32 keys, each followed by the 32-bit stream), C05_t_decode / C05_t_decode_eq (both decoders, both build configurations, arbitrary trailing bytes) are proved in full for TreemapWF values (= Treemap.SerWF BitmapWF: strictly ascending u32 keys, every partition BitmapWF and not the empty bitmap; implied by the directory invariant Treemap.WFd), lifted from the 32-bit theorems through the bucket loop (Lemmas/TreemapCodec.lean)',
+        'C05_t_bytes_partial / C05_t_deterministic_partial: Treemap.serialize t = Spec.encode64 (Treemap.elems t) inherits the 32-bit hypothesis Kernel.bitmap_toArray and adds none (bucket keys = distinct high halves, bucket contents = low halves: Lemmas/TreemapEncodeSpec.lean)',
     ],
     "level_text": "Lean 4 theorems over the executable model of serialize_into / serialized_size / both decoders: size law, "
                   "equality with an independent reference encoder written from the format specification (Spec.encode, "
@@ -53,5 +54,5 @@ CFG = {
                   "correspondence on generated values in two build profiles.",
     "level_note": "Trusted: Lean kernel; SpecCodec.lean as the reading of RoaringFormatSpec (run-free encoder); the model "
                   "mirrors serialization.rs (checked by correspondence only); byteorder/Write::write_all modelled by their "
-                  "contracts. 32-bit half only. Partial theorems are listed in evidence.partial_theorems / proof_gaps.",
+                  "contracts. Partial theorems are listed in evidence.partial_theorems / proof_gaps.",
 }
